@@ -6,7 +6,7 @@ CONSTANTS
   Mirror = FALSE
   MaxLevel = 40
   Small = FALSE
-  Avoid = FALSE
+  Avoid = TRUE
   SimK = 1
   Acts = {"dset", "oset", "rebind", "ddel", "batch", "lset", "ldel", "slice", "lins", "inplace"}
 CONSTRAINT LevelBound
